@@ -110,14 +110,14 @@ func VerifC20UpdateQueued() {
 	err := e.k.UpdateQueuedInfractionParams(e.ctx, cid, req)
 	vh.Reach("after-update")
 	vh.Assert(err == nil, "C20.update.no-error")
-	same := compareInfractionParameters(cur, req)
+	same := vSameInfractionParams(cur, req)
 	due := e.ctx.BlockTime().Add(e.st.unbonding)
 	q, qerr := e.k.GetQueuedInfractionParameters(e.ctx, cid)
 	if same {
 		vh.Assert(qerr != nil, "C20.update.request-equal-to-current-leaves-nothing-pending")
 	} else {
 		vh.Assert(qerr == nil, "C20.update.different-request-is-queued")
-		vh.Assert(compareInfractionParameters(q, req), "C20.update.queued-equals-request")
+		vh.Assert(vSameInfractionParams(q, req), "C20.update.queued-equals-request")
 	}
 	// schedule membership of cid: exactly once at now+unbonding iff pending
 	count := 0
@@ -152,10 +152,10 @@ func VerifC20UpdateQueued() {
 	}
 	// current parameters unchanged by a request on a launched consumer
 	c2, cerr := e.k.GetInfractionParameters(e.ctx, cid)
-	vh.Assert(cerr == nil && compareInfractionParameters(c2, cur), "C20.update.current-unchanged-until-due")
+	vh.Assert(cerr == nil && vSameInfractionParams(c2, cur), "C20.update.current-unchanged-until-due")
 	// other consumer untouched
 	oq, oerr := e.k.GetQueuedInfractionParameters(e.ctx, other)
-	vh.Assert(oerr == nil && compareInfractionParameters(oq, opend), "C20.update.other-consumer-pending-untouched")
+	vh.Assert(oerr == nil && vSameInfractionParams(oq, opend), "C20.update.other-consumer-pending-untouched")
 	oids, _ := e.k.GetFromInfractionUpdateSchedule(e.ctx, otq)
 	on := 0
 	for _, id := range oids.Ids {
@@ -195,10 +195,10 @@ func VerifC20BeginBlock() {
 		vh.Assert(cerr == nil, "C20.beginblock.current-present")
 		_, qerr := e.k.GetQueuedInfractionParameters(e.ctx, cid)
 		if has[i] && !tq[i].After(now) {
-			vh.Assert(compareInfractionParameters(c2, pend[i]), "C20.beginblock.due-change-applied")
+			vh.Assert(vSameInfractionParams(c2, pend[i]), "C20.beginblock.due-change-applied")
 			vh.Assert(qerr != nil, "C20.beginblock.applied-change-no-longer-pending")
 		} else {
-			vh.Assert(compareInfractionParameters(c2, cur[i]), "C20.beginblock.not-due-change-not-applied")
+			vh.Assert(vSameInfractionParams(c2, cur[i]), "C20.beginblock.not-due-change-not-applied")
 			vh.Assert((qerr == nil) == has[i], "C20.beginblock.not-due-change-stays-pending")
 		}
 		sched, _ := e.k.GetFromInfractionUpdateSchedule(e.ctx, tq[i])
@@ -256,4 +256,18 @@ func VerifC20BeginBlockMany() {
 	} else {
 		vh.Assert(applied == 0 && pending == n && len(sched.Ids) == n, "C20.many.nothing-applied-before-due-time")
 	}
+}
+
+// vSameInfractionParams is the harness's own equality of infraction parameters
+// (slash fraction, jail duration and tombstone flag of both infraction kinds):
+// the oracle must not share code with the implementation under test.
+func vSameSlashJail(a, b *types.SlashJailParameters) bool {
+	if a == nil || b == nil {
+		return a == nil && b == nil
+	}
+	return vh.And(a.SlashFraction.Equal(b.SlashFraction), vh.And(a.JailDuration == b.JailDuration, a.Tombstone == b.Tombstone))
+}
+
+func vSameInfractionParams(a, b types.InfractionParameters) bool {
+	return vh.And(vSameSlashJail(a.DoubleSign, b.DoubleSign), vSameSlashJail(a.Downtime, b.Downtime))
 }
